@@ -19,7 +19,7 @@ pub(crate) struct MemfsFile {
 impl MemfsFile {
     /// Returns the length of the file remaining from the current position
     pub(crate) fn len(&self) -> u64 {
-        self.data.len() as u64 - self.pos
+        (self.data.len() as u64).saturating_sub(self.pos)
     }
 
     /// Attempt to write the data to the data store
@@ -60,7 +60,7 @@ impl Clone for MemfsFile {
 // Implement the Read trait for the MemfsFile
 impl io::Read for MemfsFile {
     fn read(&mut self, buf: &mut [u8]) -> io::Result<usize> {
-        let pos = self.pos as usize;
+        let pos = cmp::min(self.pos, self.data.len() as u64) as usize;
 
         // Determine max data to read from the file
         let len = cmp::min(buf.len(), self.len() as usize);
@@ -79,12 +79,21 @@ impl io::Read for MemfsFile {
 // Implement the Seek trait for the MemfsFile
 impl io::Seek for MemfsFile {
     fn seek(&mut self, pos: io::SeekFrom) -> std::io::Result<u64> {
+        let pos = match pos {
+            io::SeekFrom::Start(offset) => Some(offset),
+            io::SeekFrom::Current(offset) => self.pos.checked_add_signed(offset),
+            io::SeekFrom::End(offset) => (self.data.len() as u64).checked_add_signed(offset),
+        };
         match pos {
-            io::SeekFrom::Start(offset) => self.pos = offset,
-            io::SeekFrom::Current(offset) => self.pos = (self.pos as i64 + offset) as u64,
-            io::SeekFrom::End(offset) => self.pos = (self.data.len() as i64 + offset) as u64,
+            Some(pos) => {
+                self.pos = pos;
+                Ok(self.pos)
+            },
+            None => Err(io::Error::new(
+                io::ErrorKind::InvalidInput,
+                "invalid seek to a negative or overflowing position",
+            )),
         }
-        Ok(self.pos)
     }
 }
 
